@@ -552,11 +552,22 @@ func runConst(c c20Ewma) (msg string) {
 	const total = int64(1) << 40
 	var cur int64
 	if c.Via == "direct" {
-		for _, s := range c.Samples {
-			base.(decor.EwmaDecorator).EwmaUpdate(s.N, time.Duration(s.D))
-			if s.N > 0 {
-				cur += s.N
+		// (an estimator wrapper that forgets to release its lock parks the second call)
+		sig, undecided := callCertified(func() {
+			for _, s := range c.Samples {
+				base.(decor.EwmaDecorator).EwmaUpdate(s.N, time.Duration(s.D))
+				if s.N > 0 {
+					cur += s.N
+				}
 			}
+			d.Decor(decor.Statistics{Total: total, Current: cur})
+			d.Decor(decor.Statistics{Total: total, Current: cur})
+		})
+		if sig != "" {
+			return fmt.Sprintf("certified deadlock while feeding / reading the %s estimator directly: %s", c.Ctor, sig)
+		}
+		if undecided {
+			return ""
 		}
 	} else {
 		var sig string
